@@ -77,6 +77,11 @@ def build_model(spec):
     if cls == 'XXZChain' and spec['engine'].startswith('TD') and spec['engine'] not in ('TDVP1', 'TDVP2'):
         cls = 'XXZChain2'  # the time-dependent engines need a model with options (CouplingMPOModel)
     mp = {'L': spec['L'], 'bc_MPS': 'finite'}
+    if spec.get('eph'):
+        # H = MPO + h.c. (explicit_plus_hc): an option of every CouplingMPOModel
+        mp['explicit_plus_hc'] = True
+        if cls == 'XXZChain':
+            cls = 'XXZChain2'
     mp.update(consopts[spec['conserve']])
     mp.update(spec['params'])
     if name == 'SpinChain1':
@@ -271,11 +276,27 @@ def run_evolution(spec):
                         e1.run()
                     r1 = M.mps_to_dense(e1.psi).reshape(-1)
                     require(np.linalg.norm(r - r1) <= 1e-9 * n0, 'merged-steps-differ', 'N_steps=2 at once vs 2 x N_steps=1: |diff| = %r' % (np.linalg.norm(r - r1) / n0), **tags)
+            def err_for(n):
+                phi_ = psi0.copy()
+                e_ = make_engine(spec, phi_, model, T / n, n, None)
+                e_.run()
+                return np.linalg.norm(M.mps_to_dense(e_.psi).reshape(-1) - scipy.linalg.expm(-1j * T * H) @ v0) / n0
             if errs[2] > 1e-7:  # (well above the rounding floor of the dense comparison, observed up to 2e-9)
                 order = np.log2(errs[1] / errs[2])
-                require(order >= p - 0.5, 'order', 'errors %r on dt, dt/2, dt/4: observed order %.2f, documented %d' % (errs, order, p), **tags)
+                if order < p - 0.5:
+                    # pre-asymptotic regime (the leading error coefficient of this state is small and competes with the next order):
+                    # refine twice more; the documented order holds if the local order increases towards it.  Below the noise floor the
+                    # measurement is inconclusive.
+                    more = [err_for(16), err_for(32)]
+                    if min(more) > 1e-7:
+                        o2, o3 = np.log2(errs[2] / more[0]), np.log2(more[0] / more[1])
+                        require(o3 >= p - 0.5 and o3 > order, 'order', 'errors %r on dt .. dt/16: local orders %.2f, %.2f, %.2f, documented %d' % (errs + more, order, o2, o3, p), **tags)
+                        classes.append('order-measured-pre-asymptotic')
+                    else:
+                        classes.append('order-inconclusive')
+                else:
+                    classes.append('order-measured')
                 nontrivial = True
-                classes.append('order-measured')
             elif errs[1] > 1e-7:
                 order = np.log2(errs[0] / errs[1])
                 require(order >= p - 0.6, 'order', 'errors %r on dt, dt/2: observed order %.2f, documented %d' % (errs[:2], order, p), **tags)
@@ -309,12 +330,23 @@ def run_evolution(spec):
         if spec['imag'] and kind in ('ExpMPO', 'TDVP1', 'TDVP2') and spec.get('compression') != 'zip_up':
             tau = 0.1 / max(1., nH / 4.)
             ex = scipy.linalg.expm(-tau * H) @ v0
-            ex = ex / np.linalg.norm(ex)
+            nex = np.linalg.norm(ex)
+            ex = ex / nex
             errs = []
             for n in (2, 4):
                 phi = psi0.copy()
                 e = make_engine(spec, phi, model, tau / n, n, None)
+                # (the documented and the implemented default of preserve_norm differ for complex dt: both values are set explicitly)
+                e.options['preserve_norm'] = bool(n == 2 and spec['seed'] % 2)
                 e.run_evolution(n, -1j * tau / n)
+                if e.options['preserve_norm']:
+                    require(abs(e.psi.norm - psi0.norm) <= 1e-12 * psi0.norm, 'imag-preserve_norm', 'preserve_norm=True: psi.norm %r -> %r' % (psi0.norm, e.psi.norm), **tags)
+                else:
+                    # the norm of the state is tracked in psi.norm: |exp(-tau H) psi0|
+                    nm = np.linalg.norm(M.mps_to_dense(e.psi).reshape(-1))
+                    bound = 5 * (tau / n * nH) ** (2 if p is None else min(p, 2)) * max(1., tau * nH) + 1e-7
+                    if p is not None or spec['state'] == 'random':
+                        require(abs(nm / nex - 1.) <= bound, 'imag-norm-not-tracked', 'preserve_norm=False: |psi| = %r (psi.norm = %r), |exp(-tau H) psi0| = %r' % (nm, e.psi.norm, nex), **tags)
                 require(abs(e.evolved_time - (-1j * tau)) <= 1e-12, 'evolved_time-imag', 'evolved_time = %r after %d steps of -i*%r' % (e.evolved_time, n, tau / n), **tags)
                 r = M.mps_to_dense(e.psi, include_norm=False).reshape(-1)
                 if not np.all(np.isfinite(r)) or np.linalg.norm(r) == 0:
